@@ -2,6 +2,7 @@ package props
 
 import (
 	"bytes"
+	"encoding/json"
 	"fmt"
 	"reflect"
 
@@ -82,6 +83,14 @@ func hGoodFrames() []hFrame {
 					&lorawan.MACCommand{CID: lorawan.CID(0x90), Payload: &lorawan.ProprietaryMACCommandPayload{Bytes: []byte{0x31, 0x32}}},
 					&lorawan.MACCommand{CID: lorawan.LinkCheckReq},
 				}}}
+		}},
+		{"up-port0-no-payload", func() lorawan.PHYPayload {
+			return lorawan.PHYPayload{MHDR: lorawan.MHDR{MType: lorawan.UnconfirmedDataUp, Major: lorawan.LoRaWANR1}, MIC: lorawan.MIC{6, 2, 8, 3}, MACPayload: &lorawan.MACPayload{
+				FHDR: lorawan.FHDR{DevAddr: lorawan.DevAddr{2, 2, 2, 2}, FCnt: 300}, FPort: hPort(0)}}
+		}},
+		{"down-port1-no-payload-fopts", func() lorawan.PHYPayload {
+			return lorawan.PHYPayload{MHDR: lorawan.MHDR{MType: lorawan.ConfirmedDataDown, Major: lorawan.LoRaWANR1}, MIC: lorawan.MIC{1, 8, 5, 3}, MACPayload: &lorawan.MACPayload{
+				FHDR: lorawan.FHDR{DevAddr: lorawan.DevAddr{3, 3, 3, 3}, FCnt: 0x0100, FOpts: []lorawan.Payload{&lorawan.MACCommand{CID: lorawan.DevStatusReq}}}, FPort: hPort(1)}}
 		}},
 		{"down-empty", func() lorawan.PHYPayload {
 			return lorawan.PHYPayload{MHDR: lorawan.MHDR{MType: lorawan.UnconfirmedDataDown, Major: lorawan.LoRaWANR1}, MIC: lorawan.MIC{0xA, 0xB, 0xC, 0xD}, MACPayload: &lorawan.MACPayload{
@@ -226,8 +235,13 @@ func hFrameOps() []HOp {
 			}},
 			HOp{"decode(" + f.name + ")", func(HCtx) interface{} {
 				var p lorawan.PHYPayload
-				err := p.UnmarshalBinary(append([]byte(nil), wire...))
+				in := append([]byte(nil), wire...)
+				err := p.UnmarshalBinary(in)
 				hDecodeCommands(&p)
+				// the receive buffer is reused for the next packet: the decoded frame keeps its value
+				for i := range in {
+					in[i] ^= 0xA5
+				}
 				problem := ""
 				if want := f.mk(); want.MHDR.MType != lorawan.JoinAccept {
 					if a, b := pubPrint(p), pubPrint(want); a != b {
@@ -315,6 +329,27 @@ func hFrameOps() []HOp {
 					problem = "the relayed frame decodes differently from the same bytes decoded into a fresh value, " + firstDiff(a, b)
 				}
 				return &hChecked{&hDecoded{&kept, errS(err)}, problem}
+			}},
+			HOp{"decode-then-log-as-json(" + f.name + ")", func(HCtx) interface{} {
+				// a received frame is logged (JSON, text, String of its parts) before it is
+				// processed further: logging does not change it
+				var p lorawan.PHYPayload
+				err := p.UnmarshalBinary(append([]byte(nil), wire...))
+				before := pubPrint(p)
+				js, jerr := json.Marshal(p)
+				p.MarshalText()
+				after := pubPrint(p)
+				again, merr := p.MarshalBinary()
+				problem := ""
+				switch {
+				case err != nil:
+					problem = "the frame's own encoding does not decode: " + err.Error()
+				case before != after:
+					problem = "logging the received frame as JSON changed it, " + firstDiff(after, before)
+				case merr != nil || !bytes.Equal(again, wire):
+					problem = fmt.Sprintf("after logging, the received frame %x re-encodes to %x (err %v)", wire, again, merr)
+				}
+				return &hChecked{[]interface{}{len(js), errS(jerr)}, problem}
 			}},
 			HOp{"decode-then-edit(" + f.name + ")", func(HCtx) interface{} {
 				var p lorawan.PHYPayload
